@@ -13,7 +13,7 @@
 //	          doc/queries.md parses to the query it was rendered from; malformed pieces at every
 //	          position are rejected;
 //	eval      every structured query of <= 3 (4) clauses over a catalogue tuned to the population,
-//	          parsed by the real parser and evaluated by the real RepoCache on populations of 6-9
+//	          parsed by the real parser and evaluated by the real RepoCache on populations of 6-12
 //	          bugs built through the real cache (several replicas for equal Lamport times), at
 //	          several stages (live cache, reopened cache, after a pull, after further edits),
 //	          against a reference evaluator over bugs read back from git.
@@ -223,6 +223,7 @@ type run struct {
 	harness  bool
 	// replay restriction
 	onlyPop, onlyStage string
+	onlyPart           string
 	onlyClauses        []string
 	onlyInput          string
 }
@@ -261,6 +262,9 @@ func (r *run) evalPopulations() {
 				return nil
 			}
 			cat := evalCatalogue(p)
+			if r.onlyPart == "eval-case" {
+				cat = caseCatalogue()
+			}
 			ctx, err := newEvalCtx(p, stage, withSearch, cat)
 			if err != nil {
 				return err
@@ -315,6 +319,25 @@ func (r *run) evalPopulations() {
 					"query": renderQuery([]clause{cat[2], cat[23], cat[len(cat)-2]})})
 			}
 			r.record(name, pr, true, t0)
+			if spec.Name == "filters" {
+				// names, logins and titles whose only capitals are non-ASCII x every query case
+				t0 := time.Now()
+				ccat := caseCatalogue()
+				cctx, err := newEvalCtx(p, stage, withSearch, ccat)
+				if err != nil {
+					return err
+				}
+				cpr := runSequences(r.col, "eval-case", ccat, 2, cctx)
+				if stageNo == 1 {
+					var ctexts []string
+					for _, c := range ccat {
+						ctexts = append(ctexts, c.Text)
+					}
+					cpr.Extra["catalogue"] = ctexts
+					cpr.Samples = append(cpr.Samples, map[string]any{"part": "eval-case", "population": spec.Name, "stage": stage, "query": renderQuery([]clause{ccat[1], ccat[len(ccat)-3]})})
+				}
+				r.record(fmt.Sprintf("eval-case %s/%d %s", spec.Name, stageNo, stage), cpr, true, t0)
+			}
 			if pi == 0 && stageNo == 2 {
 				t0 := time.Now()
 				r.record("eval-strings "+spec.Name, evalAlphabetStrings(r.col, ctx, r.b.evalStringsLen), false, t0)
@@ -399,8 +422,8 @@ func Main(args []string) {
 	ev := evidence.Evidence{PropertyID: "C12", Tier: tier, Seed: int(r.seed), Level: "model_checking", Coverage: cov,
 		Assumptions: []string{
 			"the documented language is doc/queries.md plus the statement's sub-qualifier (metadata:key:value): qualifier:value, double quotes around values with spaces, colons or apostrophes, bare or quoted search terms, at most one sort, clauses separated by one space; double quotes delimit and an apostrophe inside them is an ordinary character (values can't, can't reproduce, it's:here, 'tis 'twas, 'quoted' must round-trip for every qualifier kind and evaluate against a bug titled can't reproduce, a label it's, an identity O'Neil, a metadata value it's:here); an unterminated double quote is malformed whatever it contains",
-			"where the documentation and the statement are silent the inputs avoid the question (label, title, metadata and search values never differ from population values only by case; search words are whole lower-case words with no near neighbours for the stemmer; the harness checks this and stops otherwise) or every outcome is accepted (single-quote-delimited values including an apostrophe outside double quotes such as title:can't, upper-case keywords, aliases, empty quoted values: never-panic only; several search terms: any set between all-of and any-of; fully tied bugs: any order)",
-			"sorted by creation / edit means by Lamport time, equal Lamport times by unix stamp (cache/bug_excerpt.go); default order is creation, descending",
+			"where the documentation and the statement are silent the inputs avoid the question (label, metadata and search values never differ from population values only by case; search words are whole lower-case words with no near neighbours for the stemmer; the harness checks this and stops otherwise) or every outcome is accepted (single-quote-delimited values including an apostrophe outside double quotes such as title:can't, upper-case keywords, aliases, empty quoted values: never-panic only; several search terms: any set between all-of and any-of; fully tied bugs: any order)",
+			"title matching is case-insensitive like name and login matching (doc/queries.md: queries are case insensitive); case-insensitive means Unicode simple case mapping per letter (strings.ToLower on both sides): names, logins and titles whose only capitals are non-ASCII (Émile, Ørsted, Überlauf, Дмитрий, Ωμέγα) or that are stored in lower case (zähler) are queried as stored, all lower, all upper and with only the non-ASCII letter flipped; letters whose case mapping is not one-to-one (ß/ẞ, dotless i, final sigma) are left out", "sorted by creation / edit means by Lamport time, equal Lamport times by unix stamp (cache/bug_excerpt.go); default order is creation, descending",
 			"the reference reads bugs and identities back from git at the entity level (bug.ReadAll), not from excerpts; interpreting operations into snapshots is C10's subject and trusted here",
 			"free-text search right after a pull through the live cache is not evaluated (index freshness after a merge is C11's subject); the same population is evaluated with search after reopening",
 			"bounded: populations, stages, catalogue and clause count as listed under parts",
@@ -484,7 +507,8 @@ func (r *run) replay(path string) int {
 			}
 			r.col.add(finding{v.Oracle, sig, v.Detail, nil})
 		}
-	case "eval", "eval-strings":
+	case "eval", "eval-strings", "eval-case":
+		r.onlyPart = str("part")
 		r.onlyPop, r.onlyStage, r.onlyClauses, r.onlyInput = str("population"), str("stage"), list, str("input")
 		r.evalPopulations()
 		if r.harness {
